@@ -25,7 +25,7 @@ ASSUMPTIONS = [
     "labels is not defined by the manual) or use {symbol} expansion in the instruction field (evaluated while a "
     "macro body is read)",
 ]
-KINDS = ["opcase", "ws", "cmtadd", "cmtdel", "blank", "colon", "symcase"]
+KINDS = ["opcase", "ws", "cmtadd", "cmtdel", "blank", "colon", "symcase", "symcaseall"]
 
 
 def budget(tier):
@@ -93,7 +93,7 @@ def effective(case):
     m = meta(case["test"])
     edits = []
     for e in case["edits"]:
-        if e[0] in ("opcase", "symcase") and not m["caseok"]:
+        if e[0] in ("opcase", "symcase", "symcaseall") and not m["caseok"]:
             continue
         if e[0] == "blank" and not m["lineok"]:
             continue
@@ -158,6 +158,10 @@ def fixed_cases(tier):
                         flags=dict(crlf=True, include=False, macro=False)))
         out.append(dict(test=n, edits=[], flags=dict(crlf=False, include=True, macro=False)))
         out.append(dict(test=n, edits=[], flags=dict(crlf=False, include=False, macro=True)))
+        # all symbols re-spelled on alternating lines (definition, use and closing statement of a name differ in case)
+        for stride, phase in ((2, 0), (2, 1), (3, 1)):
+            out.append(dict(test=n, edits=[["symcaseall", stride, phase, stride + phase]],
+                            flags=dict(crlf=False, include=False, macro=False)))
     return out
 
 
